@@ -32,6 +32,8 @@ func checkC17(c *core.Ctx) {
 	c17Total(c)
 	c17Count(c)
 	c17Errors(c)
+	c.Rule("ORDABS.failing-layer-stops-evaluation", "(*engine).evalStrata, read from source and evaluated with a recording fixpoint that fails at the first, second or third layer, and with a temporal store that refuses an initial fact: the error (the fact limit among them) is returned at once and no later layer runs on the incomplete one", 1)
+	strataErrorRule(c, "ORDABS.failing-layer-stops-evaluation")
 }
 
 func c17Loop(c *core.Ctx) {
